@@ -57,8 +57,9 @@ func main() {
 			rest = append(rest, i)
 		}
 	}
-	parallel(len(scalars), func(i int) { runCase(r, cases[scalars[i]], thorough, cnt) })
-	parallel(len(rest), func(i int) { runCase(r, cases[rest[i]], thorough, cnt) })
+	framingLimits(r)
+	parallel(len(scalars), func(i int) { guarded(r, cases[scalars[i]], func() { runCase(r, cases[scalars[i]], thorough, cnt) }) })
+	parallel(len(rest), func(i int) { guarded(r, cases[rest[i]], func() { runCase(r, cases[rest[i]], thorough, cnt) }) })
 	r.Extra("type_trees", len(cases))
 	r.Extra("counters", cnt.snapshot())
 	dumpKeys()
